@@ -828,12 +828,18 @@ class _ExecutorManagerThread(threading.Thread):
         # Mark the process pool broken so that submits fail right now.
         self.executor_flags.flag_as_broken(bpe)
 
-        # Mark pending tasks as failed.
-        for work_item in self.pending_work_items.values():
+        # Mark pending tasks as failed. The feeder thread of the call queue can
+        # concurrently pop items from this dict in its error handler: pop the
+        # items one by one so that each of them is failed exactly once, by
+        # exactly one thread, instead of iterating on a dict that can change.
+        while self.pending_work_items:
+            try:
+                _, work_item = self.pending_work_items.popitem()
+            except KeyError:
+                break
             work_item.future.set_exception(bpe)
             # Delete references to object. See issue16284
             del work_item
-        self.pending_work_items.clear()
 
         # Terminate remaining workers forcibly: the queues or their
         # locks may be in a dirty state and block forever.
